@@ -473,7 +473,12 @@ theorem mono_publishTail (b X : B) (c : Cli) (r : PubReq) (s : Sess) (hs : X.ses
   extract_lets dupl s1 b1 bm
   have hs1 : s1.cid = s.cid ∧ s1.queue = s.queue := by simp only [s1]; split <;> exact ⟨rfl, rfl⟩
   have hb1 : Mono b b1 := by
-    refine (h.trans (mono_setSess_same X c.cid s s1 hs hs1.1 hs1.2)).trans ?_
+    have hq : Mono b ((X.setSess s1).pubDupQuota c r dupl) := by
+      unfold B.pubDupQuota
+      split
+      · exact mono_quotaBack _ _ _ (h.trans (mono_setSess_same X c.cid s s1 hs hs1.1 hs1.2))
+      · exact h.trans (mono_setSess_same X c.cid s s1 hs hs1.1 hs1.2)
+    refine hq.trans ?_
     simp only [b1, B.pubRetain]
     split
     · split <;> exact mono_retained _ _
